@@ -93,4 +93,12 @@ def used_names(expr: str):
     """bare identifiers of a generated C expression: temporaries and locals (inputs are accessed as state.state.x() etc.)"""
     e = re.sub(r"\b(?:state\.state|state|calibration|control|reading)\.\w+\(\)", " ", expr)
     e = re.sub(r"\b\d+\.?\d*(?:[eE][-+]?\d+)?\b", " ", e)
-    return [x for x in IDENT.findall(e) if x not in ("dt", "pow", "sin", "cos", "tan", "exp", "log", "sqrt", "asin", "acos", "atan", "M_PI", "fabs", "state", "calibration", "control", "reading")]
+    return [x for x in IDENT.findall(e) if x not in C_NOT_NAMES]
+
+
+# C library functions and <cmath> constants that sympy's ccode emits (e.g. sqrt(2) -> M_SQRT2): not temporaries
+C_NOT_NAMES = {"dt", "state", "calibration", "control", "reading",
+               "pow", "sin", "cos", "tan", "exp", "log", "sqrt", "asin", "acos", "atan", "atan2", "sinh", "cosh", "tanh", "asinh", "acosh", "atanh",
+               "fabs", "floor", "ceil", "fmin", "fmax", "exp2", "expm1", "log2", "log10", "log1p", "cbrt", "hypot", "erf", "erfc", "tgamma", "lgamma",
+               "M_PI", "M_E", "M_SQRT2", "M_SQRT1_2", "M_LN2", "M_LN10", "M_LOG2E", "M_LOG10E", "M_PI_2", "M_PI_4", "M_1_PI", "M_2_PI", "M_2_SQRTPI",
+               "HUGE_VAL", "NAN", "INFINITY"}
